@@ -198,7 +198,8 @@ func c15loopBody() {
 		chk.next[a.Addr], chk.next[b.Addr] = okA, okB
 		sched.AdvanceTime(int64(time.Second))
 		sched.WaitQuiescent()
-		for h, ok := range map[*hostpkg.Host]bool{a: okA, b: okB} {
+		for hi, h := range []*hostpkg.Host{a, b} {
+			ok := []bool{okA, okB}[hi]
 			s := state[h]
 			if ok != s.healthy {
 				s.run++
@@ -220,7 +221,8 @@ func c15loopBody() {
 		for _, h := range set.Healthy() {
 			usable[h.Addr] = true
 		}
-		for h, s := range state {
+		for _, h := range []*hostpkg.Host{a, b} {
+			s := state[h]
 			if usable[h.Addr] != s.healthy {
 				sched.Fail("monitor-loop-usable-view-differs-from-flags", fmt.Sprintf("threshold %d outcomes %05b tick %d host %s", thr, bits, tick, h.Addr))
 			}
